@@ -5,6 +5,7 @@ package checks
 import (
 	"math/big"
 
+	authtypes "github.com/cosmos/cosmos-sdk/x/auth/types"
 	banktypes "github.com/cosmos/cosmos-sdk/x/bank/types"
 	slashingtypes "github.com/cosmos/cosmos-sdk/x/slashing/types"
 	"github.com/ethereum/go-ethereum/accounts/abi"
@@ -39,3 +40,5 @@ func histABIs(n *vn.Node) (abi.ABI, abi.ABI) {
 	pcs := n.App.EvmKeeper.Precompiles(addrDist)
 	return st, pcs[addrDist].(*distpc.Precompile).ABI
 }
+
+type authAccountI = authtypes.AccountI
